@@ -1,0 +1,128 @@
+// Copyright 2026 Dolthub, Inc.
+//
+// Licensed under the Apache License, Version 2.0 (the "License");
+// you may not use this file except in compliance with the License.
+// You may obtain a copy of the License at
+//
+//     http://www.apache.org/licenses/LICENSE-2.0
+//
+// Unless required by applicable law or agreed to in writing, software
+// distributed under the License is distributed on an "AS IS" BASIS,
+// WITHOUT WARRANTIES OR CONDITIONS OF ANY KIND, either express or implied.
+// See the License for the specific language governing permissions and
+// limitations under the License.
+
+//go:build verif
+
+package val
+
+import "math"
+
+// Property-level lemmas (ghost code): each is verified using only the contracts of the
+// functions it calls. They are ordinary Go and can also be executed.
+
+func verif_lemma_rt_bool(buf []byte, v bool) {
+	writeBool(buf, v)
+	verif_assert(readBool(buf) == v)
+}
+
+func verif_lemma_rt_int8(buf []byte, v int8) {
+	writeInt8(buf, v)
+	verif_assert(readInt8(buf) == v)
+}
+
+func verif_lemma_rt_uint8(buf []byte, v uint8) {
+	writeUint8(buf, v)
+	verif_assert(readUint8(buf) == v)
+}
+
+func verif_lemma_rt_int16(buf []byte, v int16) {
+	writeInt16(buf, v)
+	verif_assert(readInt16(buf) == v)
+}
+
+func verif_lemma_rt_uint16(buf []byte, v uint16) {
+	WriteUint16(buf, v)
+	verif_assert(ReadUint16(buf) == v)
+}
+
+func verif_lemma_rt_int32(buf []byte, v int32) {
+	writeInt32(buf, v)
+	verif_assert(readInt32(buf) == v)
+}
+
+func verif_lemma_rt_uint32(buf []byte, v uint32) {
+	writeUint32(buf, v)
+	verif_assert(ReadUint32(buf) == v)
+}
+
+func verif_lemma_rt_int64(buf []byte, v int64) {
+	writeInt64(buf, v)
+	verif_assert(readInt64(buf) == v)
+}
+
+func verif_lemma_rt_uint64(buf []byte, v uint64) {
+	writeUint64(buf, v)
+	verif_assert(readUint64(buf) == v)
+}
+
+// floats round-trip bit-exactly (NaN payloads and the sign of zero included)
+func verif_lemma_rt_float32(buf []byte, v float32) {
+	writeFloat32(buf, v)
+	verif_assert(math.Float32bits(readFloat32(buf)) == math.Float32bits(v))
+}
+
+func verif_lemma_rt_float64(buf []byte, v float64) {
+	writeFloat64(buf, v)
+	verif_assert(math.Float64bits(readFloat64(buf)) == math.Float64bits(v))
+}
+
+func verif_lemma_rt_bit64(buf []byte, v uint64) {
+	writeBit64(buf, v)
+	verif_assert(readBit64(buf) == v)
+}
+
+func verif_lemma_rt_year(buf []byte, v int16) {
+	writeYear(buf, v)
+	verif_assert(readYear(buf) == v)
+}
+
+func verif_lemma_rt_time(buf []byte, v int64) {
+	writeTime(buf, v)
+	verif_assert(readTime(buf) == v)
+}
+
+func verif_lemma_rt_enum(buf []byte, v uint16) {
+	writeEnum(buf, v)
+	verif_assert(readEnum(buf) == v)
+}
+
+func verif_lemma_rt_set(buf []byte, v uint64) {
+	writeSet(buf, v)
+	verif_assert(readSet(buf) == v)
+}
+
+func verif_lemma_rt_bytestring(buf []byte, v []byte) {
+	writeByteString(buf, v)
+	r := readByteString(buf)
+	verif_assert(len(r) == len(v))
+	verif_assert(verif_forall(0, len(v), func(i int) bool { return r[i] == v[i] }))
+}
+
+func verif_lemma_rt_hash128(buf []byte, v []byte) {
+	writeHash128(buf, v)
+	r := readHash128(buf)
+	verif_assert(verif_forall(0, 16, func(i int) bool { return r[i] == v[i] }))
+}
+
+func verif_lemma_rt_addr(buf []byte, v []byte) {
+	writeAddr(buf, v)
+	r := readAddr(buf)
+	verif_assert(verif_forall(0, 20, func(i int) bool { return r[i] == v[i] }))
+}
+
+func verif_lemma_rt_cell(buf []byte, v Cell) {
+	writeCell(buf, v)
+	r := readCell(buf)
+	verif_assert(r == v)
+}
